@@ -16,7 +16,10 @@ RULE = ('registry/shapes: sequences of registrations over {function, builtin, me
         'shapes {__init__, __new__, both, neither, custom metaclass, __slots__, namedtuple, abstract base, class with a '
         'registered method} x {configurable, register, external_configurable} x {unscoped, scoped}, with valid and invalid '
         'names / modules, duplicate names with the same or a different object, unknown names in allow / deny lists, both '
-        'lists, non-list lists, locked config, interactive mode blocks. Observed: outcome class, registry keys after every '
+        'lists, non-list lists, locked config, interactive mode switched by any (also unbalanced / repeated) sequence of '
+        'enter / exit calls and interactive_mode() blocks with registrations inside them (whether a re-registration may '
+        'pass is decided by the harness\'s own account of that switch, not by gin\'s flag); classes whose registered method '
+        'has a registered name other than its attribute name, clashing (or not) with a held full name. Observed: outcome class, registry keys after every '
         'op (model-compared), and on the implementation: direct calls of the original receive nothing, registry handles '
         'inject, name / doc / signature / module preserved, subclass relation, type(instance) is original when no registered '
         'methods, pickling. non-trivial = a class shape registered through register / external_configurable and used scoped, '
@@ -104,44 +107,92 @@ class RegEngine(Engine):
                ['reg', dict(base, shape='fn', name='bad-name')], ['reg', dict(base, shape='fn', name='ok', module='bad module')],
                ['reg', dict(base, shape='fn', name='z', allow=['a'], deny=['b'])], ['reg', dict(base, shape='fn', name='z', allow=['nope'])],
                ['reg', dict(base, shape='fn', name='z', deny=['a'], lists_ok=False)], ['reg', dict(base, shape='fn', name='pkg.sub.q')]])
+    # interactive mode is a switch, not a count: unbalanced (idempotent) enter / exit calls, and registrations made INSIDE an
+    # interactive_mode() block (third element of the op: the operations of the block's body)
+    x = lambda shape, **kw: ['reg', dict(base, shape=shape, name='x', module='m', **kw)]
+    cs.append([x('WithInit'), ['exit_interactive'], x('WithNew'), ['interactive_block', False, [x('Slotted')]], x('fn')])
+    cs.append([x('fn'), ['enter_interactive'], ['enter_interactive'], x('WithNew', api='external'), ['exit_interactive'],
+               x('Slotted', api='configurable')])
+    cs.append([x('WithInit'), ['interactive_block', True, [['enter_interactive'], x('fn', api='external')]], x('NT'),
+               ['exit_interactive'], ['exit_interactive'], ['interactive_block', False, [['exit_interactive'], x('Concrete')]],
+               ['interactive_block', False, [x('Concrete')]], x('WithBoth')])
     return cs
+
+  def gen_reg(self, rng):
+    req = {'api': rng.choice(APIS), 'shape': rng.choice(SHAPES),
+           'name': rng.choice([None, None, 'x', 'y', 'pkg.q', 'bad-name', '1x', 'x', 'x\n', 'pkg.q\n']),
+           'module': rng.choice([None, None, 'm', 'm.n', 'bad module', '', 'm\n']),
+           'allow': [], 'deny': [], 'lists_ok': True, 'scoped': rng.random() < 0.4}
+    x = rng.random()
+    if x < 0.15:
+      req['allow'] = rng.choice([['a'], ['a', 'b'], ['nope']])
+    elif x < 0.3:
+      req['deny'] = rng.choice([['b'], ['nope']])
+    elif x < 0.35:
+      req['allow'], req['deny'] = ['a'], ['b']
+    elif x < 0.4:
+      req['deny'], req['lists_ok'] = ['a'], False
+    if req['shape'] == 'callable_obj' and req['name'] is None:
+      req['name'] = 'cobj'       # a callable object has no __name__: the API requires an explicit name
+    return req
+
+  @staticmethod
+  def other_object(rng, req, extra=()):
+    """the request of a DIFFERENT object for the full name `req` spells"""
+    return dict(req, shape=rng.choice([sh for sh in SHAPES if sh not in (req['shape'], 'callable_obj', 'builtin')] + list(extra)),
+                api=rng.choice(APIS), allow=[], deny=[], lists_ok=True)
 
   def gen(self, rng, tier):
     ops = []
+    named = []       # requests that spell a full name explicitly (candidates for a later re-registration)
+
+    def reg_ops(into):
+      req = self.gen_reg(rng)
+      into.append(['reg', req])
+      explicit = req['name'] in ('x', 'y', 'pkg.q') and req['module'] in (None, 'm', 'm.n')
+      if explicit:
+        named.append(req)
+      if rng.random() < 0.12 and explicit:
+        # a DIFFERENT object that is itself registered already (under another name), or a decorator around the object
+        # registered first, asks for the full name that is now taken
+        other = self.other_object(rng, req, ['builtin'] + (['fn_deco'] * 4 if req['shape'] == 'fn' else []))
+        if other['shape'] != 'fn_deco' or rng.random() < 0.5:
+          into.append(['reg', dict(other, name='elsewhere')])
+        into.append(['reg', other])
+
+    def again(into, p):
+      # after the interactive mode was switched (in whatever direction, however often): a different object for a taken name
+      if named and rng.random() < p:
+        into.append(['reg', self.other_object(rng, rng.choice(named))])
+
     for _ in range(rng.randint(1, 7)):
       r = rng.random()
-      if r < 0.75:
-        req = {'api': rng.choice(APIS), 'shape': rng.choice(SHAPES),
-               'name': rng.choice([None, None, 'x', 'y', 'pkg.q', 'bad-name', '1x', 'x', 'x\n', 'pkg.q\n']),
-               'module': rng.choice([None, None, 'm', 'm.n', 'bad module', '', 'm\n']),
-               'allow': [], 'deny': [], 'lists_ok': True, 'scoped': rng.random() < 0.4}
-        x = rng.random()
-        if x < 0.15:
-          req['allow'] = rng.choice([['a'], ['a', 'b'], ['nope']])
-        elif x < 0.3:
-          req['deny'] = rng.choice([['b'], ['nope']])
-        elif x < 0.35:
-          req['allow'], req['deny'] = ['a'], ['b']
-        elif x < 0.4:
-          req['deny'], req['lists_ok'] = ['a'], False
-        if req['shape'] == 'callable_obj' and req['name'] is None:
-          req['name'] = 'cobj'       # a callable object has no __name__: the API requires an explicit name
-        ops.append(['reg', req])
-        if rng.random() < 0.12 and req['name'] in ('x', 'y', 'pkg.q') and req['module'] in (None, 'm', 'm.n'):
-          # a DIFFERENT object that is itself registered already (under another name), or a decorator around the object
-          # registered first, asks for the full name that is now taken
-          other = dict(req, shape=rng.choice([sh for sh in SHAPES if sh not in (req['shape'], 'callable_obj')] +
-                                            (['fn_deco'] * 4 if req['shape'] == 'fn' else [])),
-                       api=rng.choice(APIS), allow=[], deny=[], lists_ok=True)
-          if other['shape'] != 'fn_deco' or rng.random() < 0.5:
-            ops.append(['reg', dict(other, name='elsewhere')])
-          ops.append(['reg', other])
-      elif r < 0.79:
-        ops.append(['interactive_block', rng.random() < 0.6])     # with gin.config.interactive_mode(): ... (maybe raising)
+      if r < 0.7:
+        reg_ops(ops)
+      elif r < 0.77:
+        # with gin.config.interactive_mode(): <body> (maybe left by an exception); half of the blocks have a body
+        op = ['interactive_block', rng.random() < 0.5]
+        if rng.random() < 0.6:
+          body = []
+          for _ in range(rng.randint(1, 3)):
+            y = rng.random()
+            if y < 0.35:
+              reg_ops(body)
+            elif y < 0.7:
+              again(body, 1.0)
+            elif y < 0.85:
+              body.append(['enter_interactive'])
+            else:
+              body.append(['exit_interactive'])
+          op.append(body)
+        ops.append(op)
+        again(ops, 0.6)
       elif r < 0.82:
         ops.append(['enter_interactive'])
+        again(ops, 0.5)
       elif r < 0.89:
         ops.append(['exit_interactive'])
+        again(ops, 0.6)
       elif r < 0.95:
         ops.append(['lock'])
       else:
@@ -151,6 +202,12 @@ class RegEngine(Engine):
   def shrink(self, case):
     for i in range(len(case)):
       yield case[:i] + case[i + 1:]
+    for i, op in enumerate(case):
+      if op[0] == 'interactive_block' and len(op) > 2:
+        for j in range(len(op[2])):
+          yield case[:i] + [[op[0], op[1], op[2][:j] + op[2][j + 1:]]] + case[i + 1:]
+        if op[1]:
+          yield case[:i] + [[op[0], False, op[2]]] + case[i + 1:]
 
   def obj_of(self, mod, shape):
     if shape == 'builtin':
@@ -189,12 +246,19 @@ class RegEngine(Engine):
     mod = load_shapes()
     ids = {}
     out = []
-    for op in case:
-      if op[0] == 'reg':
-        out.append('(RReg %s)' % self.request_coq(mod, op[1], ids))
-      else:
-        out.append({'enter_interactive': 'REnterInteractive', 'exit_interactive': 'RExitInteractive', 'lock': 'RLock',
-                    'unlock': 'RUnlock', 'interactive_block': 'RExitInteractive'}[op[0]])
+
+    def walk(ops):
+      for op in ops:
+        if op[0] == 'reg':
+          out.append('(RReg %s)' % self.request_coq(mod, op[1], ids))
+        elif op[0] == 'interactive_block' and len(op) > 2:     # a block with a body: enter, the body, exit
+          out.append('REnterInteractive')
+          walk(op[2])
+          out.append('RExitInteractive')
+        else:
+          out.append({'enter_interactive': 'REnterInteractive', 'exit_interactive': 'RExitInteractive', 'lock': 'RLock',
+                      'unlock': 'RUnlock', 'interactive_block': 'RExitInteractive'}[op[0]])
+    walk(case)
     return C.clist(out) if out else '(@nil rop)'
 
   def impl(self, case):
@@ -204,168 +268,189 @@ class RegEngine(Engine):
     reference = {sh: self.metadata(self.obj_of(pristine, sh)) for sh in SHAPES}
     mod = load_shapes()
     obs, fails, tags = [], [], []
-    nontrivial = False
     builtin_keys = {k for k, _ in cfg._REGISTRY.items()}  # pylint: disable=protected-access
-    accepted = 0
+    st = {'accepted': 0, 'nontrivial': False,
+          # the harness's own account of the interactive mode, from the calls made: a switch that enter_interactive_mode() /
+          # entering an interactive_mode() block turns on and exit_interactive_mode() / leaving the block turns off
+          'interactive': False}
     mutated = set()     # classes gin.configurable has (by design) wrapped in place
     held = {}           # full name -> the shape registered under it (the harness's own bookkeeping)
-    for op in case:
-      if op[0] != 'reg':
-        if op[0] == 'interactive_block':
-          was = bool(cfg._INTERACTIVE_MODE)  # pylint: disable=protected-access
-          try:
-            with cfg.interactive_mode():
-              if op[1]:
-                raise KeyError('boom')
-          except KeyError:
-            pass
-          if not was and bool(cfg._INTERACTIVE_MODE):  # (entered while already interactive, the block switches it off: by design)  pylint: disable=protected-access
-            fails.append(('interactive-mode-not-restored', 'interactive_mode() block entered with %r, left (%s) with %r' %
-                          (was, 'by an exception' if op[1] else 'normally', bool(cfg._INTERACTIVE_MODE))))  # pylint: disable=protected-access
-        elif op[0] == 'enter_interactive':
-          cfg.enter_interactive_mode()
-        elif op[0] == 'exit_interactive':
-          cfg.exit_interactive_mode()
-        elif op[0] == 'lock':
-          cfg._set_config_is_locked(True)  # pylint: disable=protected-access
-        else:
-          cfg._set_config_is_locked(False)  # pylint: disable=protected-access
-        obs.append(None)
-        continue
-      req = op[1]
-      obj = self.obj_of(mod, req['shape'])
-      before = [k for k, _ in cfg._REGISTRY.items()]  # pylint: disable=protected-access
-      was_locked = bool(cfg.config_is_locked())
-      was_interactive = bool(cfg._INTERACTIVE_MODE)  # pylint: disable=protected-access
-      allow = req['allow'] or None
-      deny = req['deny'] or None
-      if not req['lists_ok']:
-        allow = set(allow) if allow else allow
-        deny = set(deny) if deny else deny
-      snapshot = {a: obj.__dict__.get(a) for a in ('__init__', '__new__', '__call__')} if inspect.isclass(obj) else None
-      try:
+
+    def run_op(op):
+      if op[0] == 'reg':
+        return run_reg(op[1])
+      if op[0] == 'interactive_block':
+        was = bool(cfg._INTERACTIVE_MODE)  # pylint: disable=protected-access
+        try:
+          with cfg.interactive_mode():
+            st['interactive'] = True
+            if len(op) > 2:
+              obs.append(None)
+              for inner in op[2]:
+                run_op(inner)
+            if op[1]:
+              raise KeyError('boom')
+        except KeyError:
+          pass
+        st['interactive'] = False        # "interactive mode, which ends when its block exits"
+        if not was and bool(cfg._INTERACTIVE_MODE):  # (entered while already interactive, the block switches it off: by design)  pylint: disable=protected-access
+          fails.append(('interactive-mode-not-restored', 'interactive_mode() block entered with %r, left (%s) with %r' %
+                        (was, 'by an exception' if op[1] else 'normally', bool(cfg._INTERACTIVE_MODE))))  # pylint: disable=protected-access
+      elif op[0] == 'enter_interactive':
+        cfg.enter_interactive_mode()
+        st['interactive'] = True
+      elif op[0] == 'exit_interactive':
+        cfg.exit_interactive_mode()
+        st['interactive'] = False
+      elif op[0] == 'lock':
+        cfg._set_config_is_locked(True)  # pylint: disable=protected-access
+      else:
+        cfg._set_config_is_locked(False)  # pylint: disable=protected-access
+      obs.append(None)
+      return None
+
+    def run_reg(req):
+      if True:  # pylint: disable=using-constant-test
+        obj = self.obj_of(mod, req['shape'])
+        before = [k for k, _ in cfg._REGISTRY.items()]  # pylint: disable=protected-access
+        was_locked = bool(cfg.config_is_locked())
+        was_interactive = st['interactive']      # (the harness's account, not gin's _INTERACTIVE_MODE)
+        allow = req['allow'] or None
+        deny = req['deny'] or None
+        if not req['lists_ok']:
+          allow = set(allow) if allow else allow
+          deny = set(deny) if deny else deny
+        snapshot = {a: obj.__dict__.get(a) for a in ('__init__', '__new__', '__call__')} if inspect.isclass(obj) else None
+        try:
+          if req['api'] == 'configurable':
+            ret = gin.configurable(req['name'], module=req['module'], allowlist=allow, denylist=deny)(obj) \
+                if req['name'] else gin.configurable(module=req['module'], allowlist=allow, denylist=deny)(obj)
+          elif req['api'] == 'register':
+            ret = gin.register(req['name'], module=req['module'], allowlist=allow, denylist=deny)(obj) \
+                if req['name'] else gin.register(module=req['module'], allowlist=allow, denylist=deny)(obj)
+          else:
+            ret = gin.external_configurable(obj, req['name'], module=req['module'], allowlist=allow, denylist=deny)
+          exc = None
+        except Exception as e:  # pylint: disable=broad-except
+          exc, ret, msg = type(e).__name__, None, str(e)
+          if exc == 'AttributeError' and req['shape'] == 'callable_obj' and "'__name__'" in str(e):
+            exc = 'ValueError'     # the rejection message itself needs fn.__name__: still a rejection of the bad list
+        after = [k for k, _ in cfg._REGISTRY.items()]  # pylint: disable=protected-access
+        keys = [k for k in after if k not in builtin_keys]
+        if was_locked and exc is None:
+          # no registration of any kind while the configuration is locked (also not of an object registered before)
+          fails.append(('registration-while-locked-accepted', '%s(%s, name=%r, module=%r) returned although the config is locked' %
+                        (req['api'], req['shape'], req['name'], req['module'])))
+        if exc:
+          obs.append([T('Rejected', exc), keys])
+          tags.append('rejected:' + exc)
+          if after != before:
+            fails.append(('rejected-registration-changed-registry', '%r: %r -> %r' % (req, before, after)))
+          if was_interactive and 'already exists' in msg:
+            # "only inside interactive mode ... may an existing name be re-registered": inside it, it may
+            fails.append(('re-registration-inside-interactive-mode-rejected', 'inside interactive mode (switched on by the calls '
+                          'made so far) %s(%s, name=%r, module=%r) was refused: %s' % (
+                              req['api'], req['shape'], req['name'], req['module'], msg.split('\n')[0])))
+          if st['accepted']:
+            st['nontrivial'] = True
+          return
+        st['accepted'] += 1
+        new = [k for k in after if k not in before]
+        sel = new[0] if new else None
+        if sel is None:       # re-registration of an existing selector: the one the request spells
+          name = req['name'] or getattr(obj, '__name__', '')
+          import re as _re
+          module = (req['module'] if req['module'] is not None else getattr(obj, '__module__', None)) \
+              if _re.fullmatch(r'[a-zA-Z_]\w*', name) else req['module']
+          want = (module + '.' + name) if module else name
+          cands = [k for k in after if k == want] or [k for k in after if k == name or k.endswith('.' + name)]
+          sel = cands[-1] if cands else '?'
+        obs.append([T('Registered', sel, req['api'] == 'register'), keys])
+        if sel in held and held[sel] != req['shape'] and not was_interactive:
+          fails.append(('different-object-under-existing-name-accepted', 'outside interactive mode %s(%s) was accepted under the '
+                        'full name %r, which is held by %s' % (req['api'], req['shape'], sel, held[sel])))
+        held[sel] = req['shape']
+        tags.append('%s:%s' % (req['api'], req['shape']))
+        # ---- transparency checks on the implementation
         if req['api'] == 'configurable':
-          ret = gin.configurable(req['name'], module=req['module'], allowlist=allow, denylist=deny)(obj) \
-              if req['name'] else gin.configurable(module=req['module'], allowlist=allow, denylist=deny)(obj)
-        elif req['api'] == 'register':
-          ret = gin.register(req['name'], module=req['module'], allowlist=allow, denylist=deny)(obj) \
-              if req['name'] else gin.register(module=req['module'], allowlist=allow, denylist=deny)(obj)
-        else:
-          ret = gin.external_configurable(obj, req['name'], module=req['module'], allowlist=allow, denylist=deny)
-        exc = None
-      except Exception as e:  # pylint: disable=broad-except
-        exc, ret = type(e).__name__, None
-        if exc == 'AttributeError' and req['shape'] == 'callable_obj' and "'__name__'" in str(e):
-          exc = 'ValueError'     # the rejection message itself needs fn.__name__: still a rejection of the bad list
-      after = [k for k, _ in cfg._REGISTRY.items()]  # pylint: disable=protected-access
-      keys = [k for k in after if k not in builtin_keys]
-      if was_locked and exc is None:
-        # no registration of any kind while the configuration is locked (also not of an object registered before)
-        fails.append(('registration-while-locked-accepted', '%s(%s, name=%r, module=%r) returned although the config is locked' %
-                      (req['api'], req['shape'], req['name'], req['module'])))
-      if exc:
-        obs.append([T('Rejected', exc), keys])
-        tags.append('rejected:' + exc)
-        if after != before:
-          fails.append(('rejected-registration-changed-registry', '%r: %r -> %r' % (req, before, after)))
-        if accepted:
-          nontrivial = True
-        continue
-      accepted += 1
-      new = [k for k in after if k not in before]
-      sel = new[0] if new else None
-      if sel is None:       # re-registration of an existing selector: the one the request spells
-        name = req['name'] or getattr(obj, '__name__', '')
-        import re as _re
-        module = (req['module'] if req['module'] is not None else getattr(obj, '__module__', None)) \
-            if _re.fullmatch(r'[a-zA-Z_]\w*', name) else req['module']
-        want = (module + '.' + name) if module else name
-        cands = [k for k in after if k == want] or [k for k in after if k == name or k.endswith('.' + name)]
-        sel = cands[-1] if cands else '?'
-      obs.append([T('Registered', sel, req['api'] == 'register'), keys])
-      if sel in held and held[sel] != req['shape'] and not was_interactive:
-        fails.append(('different-object-under-existing-name-accepted', 'outside interactive mode %s(%s) was accepted under the '
-                      'full name %r, which is held by %s' % (req['api'], req['shape'], sel, held[sel])))
-      held[sel] = req['shape']
-      tags.append('%s:%s' % (req['api'], req['shape']))
-      # ---- transparency checks on the implementation
-      if req['api'] == 'configurable':
-        mutated.add(req['shape'])
-      if req['api'] in ('register', 'external') and req['shape'] not in mutated:
-        if req['api'] == 'register' and ret is not obj:
-          fails.append(('register-did-not-return-original', req['shape']))
-        if inspect.isclass(obj) and {a: obj.__dict__.get(a) for a in ('__init__', '__new__', '__call__')} != snapshot:
-          fails.append(('registration-mutated-the-class', req['shape']))
-        if not cfg.config_is_locked() and 'a' in (['a', 'b'] if req['shape'] not in ('Neither', 'builtin') else []) \
-           and not (req['allow'] and 'a' not in req['allow']) and 'a' not in req['deny']:
-          try:
-            gin.bind_parameter(sel + '.a', 'INJECTED')
-            handle = gin.get_configurable(('sc/' if req['scoped'] else '') + sel)
-            if inspect.isclass(obj):
-              if req['shape'] != 'NT':
-                direct = obj()
-                if getattr(direct, 'a', None) == 'INJECTED':
-                  fails.append(('direct-call-received-injected-value', req['shape']))
-              inst = handle() if req['shape'] != 'NT' else handle(b=0)
-              if getattr(inst, 'a', None) != 'INJECTED':
-                fails.append(('registry-handle-did-not-inject', '%s: %r' % (req['shape'], getattr(inst, 'a', None))))
-              if type(inst) is not obj:
-                fails.append(('instance-not-of-original-class', '%s: %r' % (req['shape'], type(inst))))
-              if not (inspect.isclass(handle) and issubclass(handle, obj)):
-                fails.append(('handle-not-a-subclass', req['shape']))
-              elif (handle.__name__, handle.__module__, handle.__doc__) != (obj.__name__, obj.__module__, obj.__doc__):
-                fails.append(('handle-metadata-differs', '%r vs %r' % ((handle.__name__, handle.__module__), (obj.__name__, obj.__module__))))
-              try:
-                pickle.dumps(obj() if req['shape'] != 'NT' else obj(1, 2))
-                picklable = True
-              except Exception:  # pylint: disable=broad-except
-                picklable = False
-              if picklable:
+          mutated.add(req['shape'])
+        if req['api'] in ('register', 'external') and req['shape'] not in mutated:
+          if req['api'] == 'register' and ret is not obj:
+            fails.append(('register-did-not-return-original', req['shape']))
+          if inspect.isclass(obj) and {a: obj.__dict__.get(a) for a in ('__init__', '__new__', '__call__')} != snapshot:
+            fails.append(('registration-mutated-the-class', req['shape']))
+          if not cfg.config_is_locked() and 'a' in (['a', 'b'] if req['shape'] not in ('Neither', 'builtin') else []) \
+             and not (req['allow'] and 'a' not in req['allow']) and 'a' not in req['deny']:
+            try:
+              gin.bind_parameter(sel + '.a', 'INJECTED')
+              handle = gin.get_configurable(('sc/' if req['scoped'] else '') + sel)
+              if inspect.isclass(obj):
+                if req['shape'] != 'NT':
+                  direct = obj()
+                  if getattr(direct, 'a', None) == 'INJECTED':
+                    fails.append(('direct-call-received-injected-value', req['shape']))
+                inst = handle() if req['shape'] != 'NT' else handle(b=0)
+                if getattr(inst, 'a', None) != 'INJECTED':
+                  fails.append(('registry-handle-did-not-inject', '%s: %r' % (req['shape'], getattr(inst, 'a', None))))
+                if type(inst) is not obj:
+                  fails.append(('instance-not-of-original-class', '%s: %r' % (req['shape'], type(inst))))
+                if not (inspect.isclass(handle) and issubclass(handle, obj)):
+                  fails.append(('handle-not-a-subclass', req['shape']))
+                elif (handle.__name__, handle.__module__, handle.__doc__) != (obj.__name__, obj.__module__, obj.__doc__):
+                  fails.append(('handle-metadata-differs', '%r vs %r' % ((handle.__name__, handle.__module__), (obj.__name__, obj.__module__))))
                 try:
-                  back = pickle.loads(pickle.dumps(inst))
-                  if type(back) is not obj:
-                    fails.append(('pickle-changed-type', req['shape']))
-                except Exception as e:  # pylint: disable=broad-except
-                  fails.append(('instance-does-not-pickle', '%s: %s' % (req['shape'], e)))
-              if req['api'] != 'configurable':
-                nontrivial = nontrivial or req['scoped']
-            elif req['shape'] in ('fn', 'callable_obj'):
-              direct = obj(0) if req['shape'] == 'fn' else obj()
-              if 'INJECTED' in (direct if isinstance(direct, tuple) else ()):
-                fails.append(('direct-call-received-injected-value', req['shape']))
-              got = handle()
-              if 'INJECTED' not in got:
-                fails.append(('registry-handle-did-not-inject', '%s: %r' % (req['shape'], got)))
-            gin.clear_config()
+                  pickle.dumps(obj() if req['shape'] != 'NT' else obj(1, 2))
+                  picklable = True
+                except Exception:  # pylint: disable=broad-except
+                  picklable = False
+                if picklable:
+                  try:
+                    back = pickle.loads(pickle.dumps(inst))
+                    if type(back) is not obj:
+                      fails.append(('pickle-changed-type', req['shape']))
+                  except Exception as e:  # pylint: disable=broad-except
+                    fails.append(('instance-does-not-pickle', '%s: %s' % (req['shape'], e)))
+                if req['api'] != 'configurable':
+                  st['nontrivial'] = st['nontrivial'] or req['scoped']
+              elif req['shape'] in ('fn', 'callable_obj'):
+                direct = obj(0) if req['shape'] == 'fn' else obj()
+                if 'INJECTED' in (direct if isinstance(direct, tuple) else ()):
+                  fails.append(('direct-call-received-injected-value', req['shape']))
+                got = handle()
+                if 'INJECTED' not in got:
+                  fails.append(('registry-handle-did-not-inject', '%s: %r' % (req['shape'], got)))
+              gin.clear_config()
+            except Exception as e:  # pylint: disable=broad-except
+              fails.append(('transparency-check-raised', '%s %s: %s: %s' % (req['api'], req['shape'], type(e).__name__, str(e)[:150])))
+        else:
+          if inspect.isfunction(obj):
+            if (ret.__name__, ret.__doc__) != (obj.__name__, obj.__doc__) or str(inspect.signature(ret)) != str(inspect.signature(obj)):
+              fails.append(('configurable-changed-metadata', req['shape']))
+          # "gin.configurable returns an object with the original's name, docstring and signature": for every shape (classes are
+          # wrapped in place, so the comparison is with the never-registered copy of the shape)
+          got, want = self.metadata(ret), reference[req['shape']]
+          if want[0] is None:        # a callable object has no __name__ of its own to keep
+            got = (None,) + got[1:]
+          if req['api'] == 'configurable' and got != want:
+            fails.append(('configurable-changed-metadata', '%s: gin.configurable returned (name, doc, signature) %r, the original has %r' % (
+                req['shape'], self.metadata(ret), reference[req['shape']])))
+        if req['shape'] in ('fn', 'builtin', 'fn_deco') and not cfg.config_is_locked():
+          # the registry's version of a plain callable: same name, docstring and signature, and it is what the selector, the
+          # original object and the version itself lead to
+          try:
+            h = gin.get_configurable(sel)
+            if (h.__name__, h.__doc__) != (obj.__name__, obj.__doc__) or str(inspect.signature(h)) != str(inspect.signature(obj)):
+              fails.append(('configurable-changed-metadata', '%s: registry version %s%s, original %s%s' % (
+                  req['shape'], h.__name__, inspect.signature(h), obj.__name__, inspect.signature(obj))))
+            if gin.get_configurable(h) is not h or (req['shape'] != 'fn_deco' and gin.get_configurable(obj) is not h):
+              fails.append(('registry-version-not-reachable', '%s registered as %s: get_configurable(version / original) is not '
+                            'the version the selector yields' % (req['shape'], sel)))
           except Exception as e:  # pylint: disable=broad-except
             fails.append(('transparency-check-raised', '%s %s: %s: %s' % (req['api'], req['shape'], type(e).__name__, str(e)[:150])))
-      else:
-        if inspect.isfunction(obj):
-          if (ret.__name__, ret.__doc__) != (obj.__name__, obj.__doc__) or str(inspect.signature(ret)) != str(inspect.signature(obj)):
-            fails.append(('configurable-changed-metadata', req['shape']))
-        # "gin.configurable returns an object with the original's name, docstring and signature": for every shape (classes are
-        # wrapped in place, so the comparison is with the never-registered copy of the shape)
-        got, want = self.metadata(ret), reference[req['shape']]
-        if want[0] is None:        # a callable object has no __name__ of its own to keep
-          got = (None,) + got[1:]
-        if req['api'] == 'configurable' and got != want:
-          fails.append(('configurable-changed-metadata', '%s: gin.configurable returned (name, doc, signature) %r, the original has %r' % (
-              req['shape'], self.metadata(ret), reference[req['shape']])))
-      if req['shape'] in ('fn', 'builtin', 'fn_deco') and not cfg.config_is_locked():
-        # the registry's version of a plain callable: same name, docstring and signature, and it is what the selector, the
-        # original object and the version itself lead to
-        try:
-          h = gin.get_configurable(sel)
-          if (h.__name__, h.__doc__) != (obj.__name__, obj.__doc__) or str(inspect.signature(h)) != str(inspect.signature(obj)):
-            fails.append(('configurable-changed-metadata', '%s: registry version %s%s, original %s%s' % (
-                req['shape'], h.__name__, inspect.signature(h), obj.__name__, inspect.signature(obj))))
-          if gin.get_configurable(h) is not h or (req['shape'] != 'fn_deco' and gin.get_configurable(obj) is not h):
-            fails.append(('registry-version-not-reachable', '%s registered as %s: get_configurable(version / original) is not '
-                          'the version the selector yields' % (req['shape'], sel)))
-        except Exception as e:  # pylint: disable=broad-except
-          fails.append(('transparency-check-raised', '%s %s: %s: %s' % (req['api'], req['shape'], type(e).__name__, str(e)[:150])))
+    for op in case:
+      run_op(op)
     cfg.exit_interactive_mode()
-    return {'obs': obs, 'fails': fails[:3], 'nontrivial': nontrivial, 'tags': tags}
+    return {'obs': obs, 'fails': fails[:3], 'nontrivial': st['nontrivial'], 'tags': tags}
 
 
 
@@ -379,7 +464,9 @@ class MethodEngine(Engine):
     return 0
 
   def corpus(self):
-    return [{'reject': r, 'api': a, 'scoped': s}
+    # method_name: the name the method is registered under (None: its own, i.e. its attribute name)
+    return [{'reject': r, 'api': a, 'scoped': s, 'method_name': m}
+            for m in (None, 'step')
             for r in (False, True, 'bad-allow', 'bad-deny', 'both', 'nonlist', 'bad-name', 'locked')
             for a in ('register', 'external') for s in (False, True)]
 
@@ -397,7 +484,11 @@ class MethodEngine(Engine):
     K.__module__ = 'mm'
     K.meth.__module__ = 'mm'
     K.meth.__qualname__ = 'K.meth'
-    gin.register(K.meth)
+    mname = case.get('method_name') or 'meth'
+    if case.get('method_name'):
+      gin.register(case['method_name'])(K.meth)
+    else:
+      gin.register(K.meth)
     before = sorted(k for k, _ in cfg._REGISTRY.items())  # pylint: disable=protected-access
     kw = {False: {}, True: {'denylist': ['a']}, 'bad-allow': {'allowlist': ['nope']}, 'bad-deny': {'denylist': ['nope']},
           'both': {'allowlist': ['a'], 'denylist': ['a']}, 'nonlist': {'allowlist': 'a'}, 'bad-name': {'module': 'bad module'},
@@ -423,7 +514,7 @@ class MethodEngine(Engine):
         fails.append(('rejected-registration-changed-registry', '%r: registry before %r after %r' % (case['reject'], before, after)))
       if case['reject'] != 'locked':
         try:
-          gin.bind_parameter('mm.meth.x', 3)      # the separately registered method is still addressable as before
+          gin.bind_parameter('mm.%s.x' % mname, 3)      # the separately registered method is still addressable as before
         except Exception as e:  # pylint: disable=broad-except
           fails.append(('rejected-registration-lost-method', '%s: %s' % (type(e).__name__, str(e)[:120])))
     else:
@@ -431,7 +522,7 @@ class MethodEngine(Engine):
         fails.append(('valid-class-rejected', exc))
       else:
         try:
-          gin.bind_parameter('K.meth.x', 7)
+          gin.bind_parameter('K.%s.x' % mname, 7)
           handle = gin.get_configurable(('sc/' if case['scoped'] else '') + 'K')
           inst = handle()
           if not isinstance(inst, K):
@@ -441,7 +532,7 @@ class MethodEngine(Engine):
           if K().meth() != 1:
             fails.append(('direct-call-received-injected-value', 'K().meth()'))
           try:
-            gin.bind_parameter('meth.x', 8)
+            gin.bind_parameter('%s.x' % mname, 8)
             fails.append(('method-addressable-without-class', ''))
           except ValueError:
             pass
@@ -451,57 +542,99 @@ class MethodEngine(Engine):
 
 
 class MethodNameClashEngine(Engine):
-  """registering a class re-homes its separately registered methods under <class selector>.<method>: that full name may
-  already be held by a DIFFERENT object (a function or class registered there through an explicit module or a dotted name).
-  From the property text: outside interactive mode the class registration is then rejected without registering anything (the
-  holder keeps the name, the class stays unregistered, the methods stay addressable as before); inside interactive mode
-  the re-registration is permitted; when the holder is the method itself, or nobody, the class is accepted.  Also the reverse
-  order (class first, then the other object asks for <class>.<method>).  Implementation only."""
+  """registering a class re-homes its separately registered methods under <class selector>.<registered method name>: that
+  full name may already be held by a DIFFERENT object (a function or class registered there through an explicit module or a
+  dotted name).  From the property text: outside interactive mode the class registration is then rejected without registering
+  anything (the holder keeps the name, the class stays unregistered, the methods stay addressable as before); inside
+  interactive mode the re-registration is permitted; when the holder is the method itself, or nobody, the class is accepted.
+  Also the reverse order (class first, then the other object asks for <class>.<method>).  Implementation only.
+
+  Dimensions: the name the method is registered under (`method_name`: its own, or another one than its attribute name --
+  @gin.register('step') def meth(self, ...)); which full name the other object holds (`occupies`: the one the method is
+  re-homed to, or -- a decoy, no clash -- <class selector>.<attribute name>); how the interactive mode was switched before
+  the second registration (`mode_ops`: any sequence of enter / exit calls and blocks, balanced or not; the expectation comes
+  from the harness's own account of that switch)."""
   name = 'method-name-clash'
   model = False
 
   def budget(self, tier):
-    return 0
+    return 60 if tier == 'quick' else 600
+
+  MODE_OPS = [['exit'], ['enter', 'enter', 'exit'], ['exit', 'in-block'], ['block'], ['enter', 'block'], ['exit', 'enter'],
+              ['in-block'], ['exit', 'block'], ['enter', 'exit', 'exit', 'in-block']]
 
   def corpus(self):
     cs = []
-    for api in ('register', 'external'):
-      for occupant in ('function', 'class', 'self', 'none'):
-        for spelling in ('module', 'dotted'):
-          for interactive in (False, True):
-            for two in (False, True):
-              for order in ('occupant-first', 'class-first'):
-                if order == 'class-first' and occupant in ('self', 'none'):
-                  continue
-                if occupant in ('none', 'self') and spelling == 'dotted':
-                  continue       # (a method registered as 'K.meth' in module mm is re-homed as mm.K.K.meth: not its own name)
-                cs.append({'api': api, 'occupant': occupant, 'spelling': spelling, 'interactive': interactive,
-                           'two_methods': two, 'order': order})
+    for mname in (None, 'step'):
+      for api in ('register', 'external'):
+        for occupant in ('function', 'class', 'self', 'none'):
+          for spelling in ('module', 'dotted'):
+            for interactive in (False, True):
+              for two in (False, True):
+                for order in ('occupant-first', 'class-first'):
+                  if order == 'class-first' and occupant in ('self', 'none'):
+                    continue
+                  if occupant in ('none', 'self') and spelling == 'dotted':
+                    continue       # (a method registered as 'K.meth' in module mm is re-homed as mm.K.K.meth: not its own name)
+                  cs.append({'api': api, 'occupant': occupant, 'spelling': spelling, 'interactive': interactive,
+                             'two_methods': two, 'order': order, 'method_name': mname, 'occupies': 'registered'})
+                  if mname and occupant in ('function', 'class') and not two:
+                    cs.append(dict(cs[-1], occupies='attribute'))
+        for order in ('occupant-first', 'class-first'):
+          for ops in self.MODE_OPS[:7]:
+            cs.append({'api': api, 'occupant': 'function', 'spelling': 'module', 'interactive': None, 'mode_ops': ops,
+                       'two_methods': False, 'order': order, 'method_name': mname, 'occupies': 'registered'})
     return cs
 
   def gen(self, rng, tier):
-    return rng.choice(self.corpus())
+    occupant = rng.choice(['function', 'function', 'class', 'self', 'none'])
+    case = {'api': rng.choice(['register', 'external']), 'occupant': occupant,
+            'spelling': rng.choice(['module', 'dotted']) if occupant in ('function', 'class') else 'module',
+            'interactive': None, 'two_methods': rng.random() < 0.3,
+            'order': rng.choice(['occupant-first', 'class-first']) if occupant in ('function', 'class') else 'occupant-first',
+            'method_name': rng.choice([None, 'step', 'step', 'run_2']), 'occupies': 'registered'}
+    if case['method_name'] and occupant in ('function', 'class') and rng.random() < 0.3:
+      case['occupies'] = 'attribute'
+    ops = [rng.choice(['enter', 'exit', 'block']) for _ in range(rng.randint(0, 4))]
+    if rng.random() < 0.3:
+      ops.append('in-block')
+    case['mode_ops'] = ops
+    return case
+
+  def shrink(self, case):
+    ops = case.get('mode_ops')
+    if ops:
+      for i in range(len(ops)):
+        yield dict(case, mode_ops=ops[:i] + ops[i + 1:])
+    if case.get('two_methods'):
+      yield dict(case, two_methods=False)
 
   def impl(self, case):
     gin = C.fresh_gin()
     cfg = gin.config
     fails = []
     ns = {'gin': gin, '__name__': 'mm'}
-    exec('class K:\n  def __init__(self, a=5):\n    self.a = a\n'  # pylint: disable=exec-used
-         '  @gin.register\n  def meth(self, x=1):\n    return ("method", x)\n' +
+    reg_as = case.get('method_name')                 # None: registered under its own (attribute) name
+    mname = reg_as or 'meth'
+    deco = "  @gin.register(%r)\n" % reg_as if reg_as else '  @gin.register\n'
+    exec('class K:\n  def __init__(self, a=5):\n    self.a = a\n' +  # pylint: disable=exec-used
+         deco + '  def meth(self, x=1):\n    return ("method", x)\n' +
          ('  @gin.register\n  def alpha(self, x=1):\n    return ("alpha", x)\n' if case['two_methods'] else '') +
          'def other_fn(x=1):\n  return ("function", x)\n'
          'class OtherCls:\n  def __init__(self, x=1):\n    self.x = x\n', ns)
     K = ns['K']
-    full = 'mm.K.meth'
+    full = 'mm.K.' + mname                           # where registering the class re-homes the method
+    decoy = case.get('occupies', 'registered') == 'attribute'
+    taken_last = 'meth' if decoy else mname          # the last component of the full name the other object holds
+    taken = 'mm.K.' + taken_last
     occupant = {'function': ns['other_fn'], 'class': ns['OtherCls'], 'self': K.meth, 'none': None}[case['occupant']]
     registry = lambda: sorted(k for k, _ in cfg._REGISTRY.items())  # pylint: disable=protected-access
-    holder = lambda: cfg._REGISTRY[full].wrapped if full in cfg._REGISTRY else None  # pylint: disable=protected-access
+    holder = lambda name=None: (cfg._REGISTRY[name or full].wrapped if (name or full) in cfg._REGISTRY else None)  # pylint: disable=protected-access
 
     def register_occupant():
       if case['spelling'] == 'module':
-        return gin.register('meth', module='mm.K')(occupant)
-      return gin.register('K.meth', module='mm')(occupant)
+        return gin.register(taken_last, module='mm.K')(occupant)
+      return gin.register('K.' + taken_last, module='mm')(occupant)
 
     def register_class():
       if case['api'] == 'register':
@@ -529,29 +662,51 @@ class MethodNameClashEngine(Engine):
       return {'obs': ['setup', type(e).__name__], 'fails': [('valid-registration-rejected', 'first step: %s: %s' % (type(e).__name__, str(e)[:120]))],
               'nontrivial': False, 'tags': ['setup-failed']}
     if len(steps) == 1:
-      expected_holder, obs = K.meth, ['accepted']
+      obs = ['accepted']
       if holder() is not K.meth:
         fails.append(('method-not-rehomed', repr(holder())))
       return {'obs': obs, 'fails': fails, 'nontrivial': False, 'tags': ['control']}
-    held_before, before = holder(), registry()
-    if case['interactive']:
-      cfg.enter_interactive_mode()
+    held_before, before = holder(taken), registry()
+    # the interactive mode before the second registration: gin is driven through the calls, the expectation is the harness's
+    # own account of them (a switch: enter / entering a block turn it on, exit / leaving a block turn it off)
+    mode_ops = case.get('mode_ops')
+    if mode_ops is None:
+      mode_ops = ['enter'] if case['interactive'] else []
+    interactive = False
+    for mo in mode_ops:
+      if mo == 'enter':
+        cfg.enter_interactive_mode()
+        interactive = True
+      elif mo == 'exit':
+        cfg.exit_interactive_mode()
+        interactive = False
+      elif mo == 'block':
+        with cfg.interactive_mode():
+          pass
+        interactive = False
+    in_block = bool(mode_ops) and mode_ops[-1] == 'in-block'
     try:
-      steps[1]()
+      if in_block:
+        interactive = True
+        with cfg.interactive_mode():
+          steps[1]()
+      else:
+        steps[1]()
       exc = None
     except Exception as e:  # pylint: disable=broad-except
       exc = type(e).__name__
     finally:
       cfg.exit_interactive_mode()
-    after, held_after = registry(), holder()
+    after, held_after = registry(), holder(taken)
     second = 'class K' if case['order'] == 'occupant-first' else case['occupant']
     different = occupant is not K.meth
-    if different and not case['interactive']:
+    how = 'mode calls %r' % (mode_ops,)
+    if different and not decoy and not interactive:
       # "a different object under an existing full name [is] rejected without registering anything"
       if exc is None:
         fails.append(('different-object-under-existing-name-accepted',
-                      'outside interactive mode registering %s was accepted although the full name %r was held by %r: it now '
-                      'resolves to %r' % (second, full, held_before, held_after)))
+                      'outside interactive mode (%s) registering %s was accepted although the full name %r was held by %r: it '
+                      'now resolves to %r' % (how, second, full, held_before, held_after)))
       else:
         if exc != 'ValueError':
           fails.append(('rejected-with-unexpected-exception', exc))
@@ -560,20 +715,26 @@ class MethodNameClashEngine(Engine):
               before, after, full, held_before, held_after)))
         if case['order'] == 'occupant-first':
           try:
-            gin.bind_parameter('mm.meth.x', 3)        # the separately registered method is still addressable as before
+            gin.bind_parameter('mm.%s.x' % mname, 3)        # the separately registered method is still addressable as before
           except Exception as e:  # pylint: disable=broad-except
             fails.append(('rejected-registration-lost-method', '%s: %s' % (type(e).__name__, str(e)[:120])))
     else:
-      # the same object under its own name, or interactive mode: "may an existing name be re-registered"
+      # the same object under its own name, a name nobody holds, or interactive mode: "may an existing name be re-registered"
       if exc is not None:
         fails.append(('permitted-registration-rejected', '%s registering %s (%s)' % (
-            exc, second, 'interactive mode' if case['interactive'] else 'the name is held by this very method')))
+            exc, second, 'the full name %r is held by nobody: the other object holds %r' % (full, taken) if decoy else
+            'interactive mode: ' + how if different else 'the name is held by this very method')))
+      elif decoy:
+        if holder(full) is not K.meth or held_after is not occupant:
+          fails.append(('registration-took-the-wrong-name', '%r is held by %r (the method is %r), %r by %r (the other object is %r)' % (
+              full, holder(full), K.meth, taken, held_after, occupant)))
       else:
         want = K.meth if case['order'] == 'occupant-first' else occupant
         if held_after is not want:
           fails.append(('re-registration-did-not-take-the-name', '%r is held by %r' % (full, held_after)))
-    return {'obs': [exc, [k for k in after if k not in before]], 'fails': fails[:3], 'nontrivial': different,
-            'tags': ['%s:%s:%s' % (case['order'], case['occupant'], 'interactive' if case['interactive'] else 'plain')]}
+    return {'obs': [exc, [k for k in after if k not in before]], 'fails': fails[:3], 'nontrivial': different and not decoy,
+            'tags': ['%s:%s:%s%s' % (case['order'], case['occupant'], 'interactive' if interactive else 'plain',
+                                     ':decoy' if decoy else '')]}
 
 
 ENGINES = [RegEngine(), MethodEngine(), MethodNameClashEngine()]
